@@ -8,8 +8,8 @@ import RSV.Props.C06
 import RSV.Props.C07
 import RSV.Props.C08
 import RSV.Props.C09
-import RSV.Props.C10
-import RSV.Props.C11
+import RSV.Props.C10all
+import RSV.Props.C11all
 import RSV.Props.C12
 import RSV.Props.C13
 import RSV.Props.C14
